@@ -447,3 +447,91 @@ func TestVerifProbe_F18(t *testing.T) {
 	c.applyBackup()
 	c.applyRestore()
 }
+
+// C20, racing writers: entities are stored WHILE backup runs are executing on
+// a store large enough for the backup to read its key space with several
+// snapshots (badger splits at 10000 memtable entries). When the writers have
+// stopped, one more run is made on the quiet hub: everything was committed
+// before that run started, so the restored hub answers like the source.
+func c20Racing(g *gm, c *c20m, base, rounds int) {
+	p := g.h.P[0]
+	var es []*kit.Ent
+	for i := 0; i < base; i++ {
+		es = append(es, ent(fmt.Sprintf("%s:base%d", p, i), map[string]any{p + ":p0": fmt.Sprint("base ", i)}, nil, false))
+	}
+	g.applyBatch(Op{K: "batch", DS: "a", Via: "store", Ents: es})
+	c.applyBackup()
+	written := 0
+	for r := 0; r < rounds; r++ {
+		stop := make(chan struct{})
+		var wg sync.WaitGroup
+		var werr error
+		var mine []*kit.Ent
+		wg.Add(1)
+		go func() {
+			defer wg.Done()
+			for k := 0; ; k++ {
+				select {
+				case <-stop:
+					return
+				default:
+				}
+				e := ent(fmt.Sprintf("%s:racing%d-%d", p, r, k), map[string]any{p + ":p0": "racing"}, nil, false)
+				if err := g.h.StoreBatch("a", []*kit.Ent{e}, "store"); err != nil {
+					werr = err
+					return
+				}
+				mine = append(mine, e)
+			}
+		}()
+		g.record(Op{K: "backupWithRacingWriter", N: r})
+		if pmsg := c20Recover(c.bm.Run); pmsg != "" {
+			close(stop)
+			wg.Wait()
+			g.fail("backup run with a racing writer panicked: %s", pmsg)
+		}
+		close(stop)
+		wg.Wait()
+		if werr != nil {
+			g.fail("racing write failed: %v", werr)
+		}
+		g.m.Write("a", mine)
+		written += len(mine)
+	}
+	kit.S().AddExtra("entities_written_while_a_backup_ran", written)
+	c.dirty = true
+	c.applyBackup() // quiet hub
+	c.applyRestore()
+}
+
+func TestVerif_C20_racing(t *testing.T) {
+	defer kit.S().Flush()
+	defer kit.CleanupScratch()
+	rapid.Check(t, func(t *rapid.T) {
+		g := newGM(t, []string{"a"}, kit.GenCfg{})
+		defer g.close()
+		c := newC20(g, false)
+		defer c.close()
+		base := rapid.SampledFrom([]int{300, 2500, 4000}).Draw(t, "base")
+		rounds := rapid.IntRange(2, 5).Draw(t, "rounds")
+		kit.Journal(map[string]any{"racing": true, "base": base, "rounds": rounds})
+		c20Racing(g, c, base, rounds)
+		kit.S().Case(map[string]any{"racing": true, "base": base, "rounds": rounds}, base >= 2500, "racing-writer", fmt.Sprintf("base-%d", base))
+		kit.JournalDone()
+	})
+}
+
+// F31 (fixed): the native backup stored the newest version the dump had seen as
+// its cursor; the dump reads a large store with several snapshots, so a commit
+// racing the start of a run could be missed by this run and skipped by all
+// later ones. Schedule dependent: several attempts.
+func TestVerifProbe_F31(t *testing.T) {
+	defer kit.CleanupScratch()
+	for i := 0; i < 8; i++ {
+		g := newGMf(nil, t, []string{"a"}, kit.GenCfg{})
+		c := newC20(g, false)
+		c20Racing(g, c, 3000, 4)
+		c.close()
+		g.close()
+	}
+}
